@@ -276,26 +276,37 @@ def run(tier):
     if gen.error or gen.violation:
         raise vlib.MachineryError("behaviour export failed: %s %s" % (gen.error, gen.violation))
     behs = parse_gen(gen.out)
-    recs, _ = vlib.run_driver(exe, vlib.to_script(behs), timeout=1200)
-    recs = [norm(r) for r in recs]
-    mms = vlib.compare(behs, recs, match)
-    ck.notes["replayed_behaviours"] = len(behs)
-    ck.notes["design_mismatches"] = len(mms)
-    ck.cov["evaluations"] += len(behs)
-    # where code and design differ TLC judges the recorded calls by Tier 1 alone
-    diverged = sorted({mm["b"] for mm in mms})
-    hard = [mm for mm in mms if mm["why"] in ("Crash", "Hang", "Garbled", "no record (driver stopped)")]
-    if diverged:
-        cap = diverged[:4000]
-        evs = events_of(behs, recs, only=set(cap))
-        bad, _ = judge(ck, "Trace_CobsEnc", behs, recs, evs, "A(replay,scaled)", signature)
-        ck.notes["design_divergences_accepted_by_tier1"] = len(cap) - len(bad)
-        ck.notes["diverged_sample"] = [{"b": vlib.sample_repr(behs[mm["b"]]), "why": mm["why"]} for mm in mms[:2]]
-    by = vlib.group_records(recs)
+    del gen
     nt = set()
-    for b, beh in enumerate(behs):
-        if nontrivial_enc(beh, by.get(b, [])):
-            nt.add(json.dumps([(s["a"], s.get("arg")) for s in beh], sort_keys=True))
+    nmm = ndiv = nacc = 0
+    samples_a = [vlib.sample_repr(b) for b in behs[len(behs) // 2: len(behs) // 2 + 2]]
+    CH = 50000
+    for lo in range(0, len(behs), CH):
+        part = behs[lo:lo + CH]
+        recs, _ = vlib.run_driver(exe, vlib.to_script(part), timeout=1200)
+        recs = [norm(r) for r in recs]
+        mms = vlib.compare(part, recs, match)
+        nmm += len(mms)
+        # where code and design differ TLC judges the recorded calls by the property (Tier 1) alone
+        diverged = sorted({mm["b"] for mm in mms})[:1500]
+        if diverged:
+            evs = events_of(part, recs, only=set(diverged))
+            bad, _ = judge(ck, "Trace_CobsEnc", part, recs, evs, "A(replay,scaled)", signature)
+            ndiv += len(diverged)
+            nacc += len(diverged) - len(bad)
+            ck.notes.setdefault("diverged_sample", [{"b": vlib.sample_repr(part[mm["b"]]), "why": mm["why"]} for mm in mms[:2]])
+        by = vlib.group_records(recs)
+        for b, beh in enumerate(part):
+            if nontrivial_enc(beh, by.get(b, [])):
+                nt.add(json.dumps([(s["a"], s.get("arg")) for s in beh], sort_keys=True))
+        del recs
+    ck.notes["replayed_behaviours"] = len(behs)
+    ck.notes["design_mismatches"] = nmm
+    ck.notes["design_divergences_judged_by_tlc"] = ndiv
+    ck.notes["design_divergences_accepted_by_tier1"] = nacc
+    ck.cov["evaluations"] += len(behs)
+    nbehs = len(behs)
+    del behs
 
     # 3. binding B: production block sizes through the public paths, judged by TLC
     msgs = run_structured(ck.rng, cfg["full"], cfg["nmsg"])
@@ -329,7 +340,7 @@ def run(tier):
                       "validated by TLC; plus the Python client's frames.  Non-trivial = the message has a run reaching the block "
                       "limit, a zero pair or a last byte > 2, AND the schedule had more than one push or a refused/partial push; "
                       "distinct by (arguments, call sequence).  exhaustive refers to the scaled model (A), B is sampled.")
-    ck.cov["samples"] = [vlib.sample_repr(b) for b in (behs[len(behs) // 2: len(behs) // 2 + 2] + [pb[7][:6]])]
+    ck.cov["samples"] = samples_a + [vlib.sample_repr(pb[7][:6])]
     ck.assumptions = ["TLC/SANY and the CommunityModules Json/IOUtils are correct",
                       "Cobs.tla (RefDec) is the definition of the five framings",
                       "drv/cobs.c moves bytes and follows the caller protocol without judgement",
